@@ -263,8 +263,9 @@ func (s *Store) compact(footer *Footer, partialCompactStart int,
 
 		newSS, newBase = s.mergeSegStacks(footer, partialCompactStart, ssHigher)
 	} else {
-		newSS = footer.ss      // Safe as footer ref count is held positive.
-		if len(newSS.a) <= 1 { // No incoming data & 1 or fewer footer segments.
+		// Safe as footer ref count is held positive.
+		newSS = footerSegStack(footer)
+		if newSS.isFullyCompacted() { // No incoming data & 1 or fewer segments everywhere.
 			return ErrNothingToCompact // no need to perform compaction.
 		}
 	}
@@ -348,6 +349,48 @@ func (s *Store) compact(footer *Footer, partialCompactStart int,
 	}
 
 	return nil
+}
+
+// footerSegStack returns the segment stack of a footer with the segment
+// stacks of its child footers attached, so that tree walkers which find
+// child collections through childSegStacks see them.
+func footerSegStack(footer *Footer) *segmentStack {
+	ss := footer.ss
+	if ss == nil {
+		return nil
+	}
+
+	rv := &segmentStack{
+		options:  ss.options,
+		a:        ss.a,
+		incarNum: footer.incarNum,
+	}
+
+	for cName, childFooter := range footer.ChildFooters {
+		childSS := footerSegStack(childFooter)
+		if childSS != nil {
+			if rv.childSegStacks == nil {
+				rv.childSegStacks = make(map[string]*segmentStack)
+			}
+			rv.childSegStacks[cName] = childSS
+		}
+	}
+
+	return rv
+}
+
+// isFullyCompacted returns true when neither the stack nor any of its
+// child stacks has more than one segment.
+func (ss *segmentStack) isFullyCompacted() bool {
+	if len(ss.a) > 1 {
+		return false
+	}
+	for _, childSegStack := range ss.childSegStacks {
+		if !childSegStack.isFullyCompacted() {
+			return false
+		}
+	}
+	return true
 }
 
 func (s *Store) mergeSegStacks(footer *Footer, splicePoint int,
